@@ -117,7 +117,7 @@ def rule_state(ctx):
         conj = {norm(x) for x in pr.conjuncts(wl[0].test)}
         incs = [s for s in wl[0].body if isinstance(s, ast.AugAssign) and norm(s.target) == 'cursor' and const_value(s.value) == 1]
         pre = [s for s in wl[0].body if isinstance(s, ast.Assign) and norm(s.value) == 'pack_be_uint16(cursor)']
-        okw = 'cursor < 65536' in conj and len(incs) == 1 and len(pre) == 1 and pre[0].lineno < incs[0].lineno
+        okw = any(q.cmp_matches(ctx, g, x, 'cursor < 65536') for x in pr.conjuncts(wl[0].test)) and len(incs) == 1 and len(pre) == 1 and pre[0].lineno < incs[0].lineno
     ctx.check(okc and okw, 'C14.STATE', ctx.key(g, None, 'cursor walk'),
               'a pass starts at comp_cursor, walks big-endian 2-byte prefixes upwards one by one (below 65536) and persists where it stopped',
               'the prefix walk does not start at comp_cursor / advance by one be16 prefix / persist the reached cursor', loc=ctx.loc(g, g.node))
